@@ -97,8 +97,12 @@ impl<T: Ord> MemoryBoundedQueue<T> {
     pub fn push(&self, item: T, size_bytes: usize) -> Result<(), PushError> {
         let mut inner = self.inner.lock().unwrap();
 
-        // Wait while queue would be too full
-        while inner.current_size + size_bytes > self.capacity_bytes && !inner.closed {
+        // Wait while queue would be too full.  An item is always admitted into an
+        // empty queue, so an item larger than the whole capacity cannot block forever.
+        while inner.current_size + size_bytes > self.capacity_bytes
+            && !inner.items.is_empty()
+            && !inner.closed
+        {
             inner = self.not_full.wait(inner).unwrap();
         }
 
